@@ -84,6 +84,7 @@ type Contract struct {
 	Arith     string
 	AllocLimit *Clause
 	GhostSets  []GhostSet
+	GhostInits []GhostSet
 	Unroll    map[int]int
 	File      string
 	Line      int
@@ -421,6 +422,17 @@ func (cs *ContractSet) directive(cur **Contract, body, path string, ln int, pkgP
 			return err
 		}
 		c.GhostSets = append(c.GhostSets, GhostSet{Name: strings.TrimSpace(rest[:i]), Cl: cl})
+	case "ghostinit":
+		// ghostinit name = expr : ghost assignment performed on entry to the function
+		i := strings.Index(rest, "=")
+		if i < 0 {
+			return fail("ghostinit <name> = <expr>")
+		}
+		cl, err := mk(strings.TrimSpace(rest[i+1:]))
+		if err != nil {
+			return err
+		}
+		c.GhostInits = append(c.GhostInits, GhostSet{Name: strings.TrimSpace(rest[:i]), Cl: cl})
 	case "lemma":
 		c.Lemma = true
 	case "alloc-limit":
